@@ -109,6 +109,10 @@ def thread_case(inputs, plan, pipe=None):
             break
     w.close()
     dead = w.wait(5)
+    if plan and dead:
+        # an asynchronous exception reaches a thread child only through terminate(): the caller that raised it is still in
+        # that call, which goes on (join, bookkeeping) after the child is gone - stand in for the rest of it
+        w.terminate(timeout=1)
     return w, dead, inj.events
 
 
